@@ -423,6 +423,29 @@ def run(ctx):
         ctx.case(key=json.dumps({k: v for k, v in cfg.items()}, sort_keys=True))
     clean = [{k: v for k, v in t.items() if not k.startswith("_")} for t in traces]
     rej = ctx.validate_traces("Trace_IterSolve.tla", "Trace_IterSolve.cfg", clean, shards=16)
+    def m_verdict(t):
+        if t["ev"] and t["ev"][-1]["a"] == "ret" and t["ev"][-1]["verdicts"]:
+            t["ev"][-1]["verdicts"][0][1] = False            # a numeric verdict fails
+            return t
+
+    def m_skip_iter(t):
+        its = [j for j, e in enumerate(t["ev"]) if e["a"] == "iter"]
+        if len(its) >= 2:
+            del t["ev"][its[0]]                              # one Krylov iteration is missing from the record
+            return t
+
+    def m_wrong_ret(t):
+        kr = [e for e in t["ev"] if e["a"] == "kret"]
+        if kr and any(e["a"] == "iter" for e in t["ev"]):
+            kr[0]["ret"] = int(kr[0]["ret"]) + 1             # another iterate than the one that passed is handed back
+            return t
+
+    def m_silent(t):
+        if t["ev"] and t["ev"][-1]["a"] == "ret" and t["ev"][-1]["warned"] and any(e["a"] == "kret" for e in t["ev"]):
+            t["ev"][-1]["warned"] = False                    # a non-converged run returns silently
+            return t
+    ctx.binding_selftest("Trace_IterSolve.tla", "Trace_IterSolve.cfg", clean, rej,
+                         [("verdict false", m_verdict), ("iteration missing", m_skip_iter), ("other iterate returned", m_wrong_ret), ("warning missing", m_silent)])
     bytid = {t["tid"]: t for t in clean}
     for tid_, matched, total in rej:
         t = bytid[tid_]
